@@ -40,6 +40,10 @@ fn gen_set(r: &mut Rng) -> Tok {
             }
         }
     }
+    // ']' as the first member of a set is a literal (`[]a]`, `[!]a]`)
+    if r.chance(1, 8) {
+        items.insert(0, (']', ']'));
+    }
     Tok::Set(neg, items)
 }
 
@@ -195,6 +199,20 @@ fn flip(c: char) -> char {
     }
 }
 
+/// A non-ASCII character of the same Unicode category as the ASCII one.
+pub fn confusable(r: &mut Rng, c: char) -> char {
+    if c.is_ascii_digit() {
+        // Arabic-Indic, fullwidth, superscript, vulgar fraction, Roman numeral, Devanagari, NKo
+        *r.pick(&['\u{0663}', '\u{ff11}', '\u{00b2}', '\u{00bd}', '\u{2167}', '\u{0966}', '\u{07c1}'])
+    } else if c.is_ascii_uppercase() {
+        // fullwidth A, Cyrillic A, Kelvin sign, Greek Alpha, dotted capital I
+        *r.pick(&['\u{ff21}', '\u{0410}', '\u{212a}', '\u{0391}', '\u{0130}'])
+    } else {
+        // Cyrillic a, fullwidth a, dotless i, long s, sharp s, Greek omicron
+        *r.pick(&['\u{0430}', '\u{ff41}', '\u{0131}', '\u{017f}', '\u{00df}', '\u{03bf}'])
+    }
+}
+
 /// Mutations aimed at where the shortcut looks (positions 0, 1) and at
 /// whole-name matching (prefix/suffix/substring confusion).
 fn mutations(r: &mut Rng, name: &str) -> Vec<(String, &'static str)> {
@@ -238,6 +256,18 @@ fn mutations(r: &mut Rng, name: &str) -> Vec<(String, &'static str)> {
     let mut v = c.clone();
     v.insert(0, any_char(r));
     put(v, "prepend", &mut out);
+    // a Unicode look-alike in place of an ASCII digit / letter (code that
+    // classifies with char::is_numeric / is_alphabetic / to_lowercase
+    // instead of the byte ranges a set names would accept it)
+    let idx: Vec<usize> = (0..c.len()).filter(|&i| c[i].is_ascii_alphanumeric()).collect();
+    if !idx.is_empty() {
+        for _ in 0..2 {
+            let i = idx[r.below(idx.len())];
+            let mut v = c.clone();
+            v[i] = confusable(r, c[i]);
+            put(v, "confusable", &mut out);
+        }
+    }
     put(c.iter().map(|x| flip(*x)).collect(), "case-all", &mut out);
     put(c.iter().take(1).cloned().collect(), "len1", &mut out);
     put(vec![], "empty", &mut out);
@@ -527,8 +557,10 @@ pub fn run(cx: &mut Cx) {
             if let GlobParse::Ok(toks) = opat::parse_glob(p) {
                 for _ in 0..4 {
                     let nm = sample_ref(&mut r, &toks);
+                    let muts = mutations(&mut r, &nm);
+                    cand.extend(muts.iter().filter(|m| m.1 == "confusable").cloned());
                     if r.chance(1, 2) {
-                        cand.extend(mutations(&mut r, &nm).into_iter().take(6));
+                        cand.extend(muts.into_iter().take(6));
                     }
                     cand.push((nm, "lang"));
                 }
